@@ -117,7 +117,8 @@ def run(ctx):
     queue_scan(ctx, 8 if ctx.quick else 60)
     # B: clocked traces
     n = 16 if ctx.quick else 150
-    corelib.run_modes(ctx, "C04", [("timing", n), ("contend", n // 2)])
+    # (core: several channels per topic -- a deferred publish is deferred on every one of them)
+    corelib.run_modes(ctx, "C04", [("timing", n), ("contend", n // 2), ("core", n // 2)])
     if not ctx.quick:
         corelib.repo_tests(ctx, "C04")
     ctx.cov["distinct_nontrivial"] = len(rows) + len(ctx.notes.get("event_kinds", {}))
